@@ -197,7 +197,37 @@ func freshRegistry(v ssa.Value, f *ssa.Function, depth int) bool {
 	}
 	switch x := v.(type) {
 	case *ssa.Call:
-		return staticCalleeName(&x.Call) == "lint.NewRegistry"
+		if staticCalleeName(&x.Call) == "lint.NewRegistry" {
+			return true
+		}
+		// a constructor newer than the rules: every value it returns is a registry
+		// allocated in that call (composite literal / new), possibly via another constructor
+		if g := x.Call.StaticCallee(); g != nil && isNewFunc(g) && len(g.Blocks) > 0 {
+			rets := returnsOf(g)
+			if len(rets) == 0 {
+				return false
+			}
+			for _, ret := range rets {
+				rv := retVals(ret)
+				if len(rv) != 1 {
+					return false
+				}
+				switch y := rv[0].(type) {
+				case *ssa.Alloc:
+					if !y.Heap {
+						return false
+					}
+				case *ssa.Call:
+					if !freshRegistry(y, g, depth+1) {
+						return false
+					}
+				default:
+					return false
+				}
+			}
+			return true
+		}
+		return false
 	case *ssa.Alloc:
 		// composite literal in NewRegistry itself, or a cell holding the registry
 		if _, isPtrCell := x.Type().Underlying().(interface{ Elem() interface{} }); isPtrCell {
